@@ -20,7 +20,11 @@ structure HistSt where
   c13 : Option String := none
   c17 : Option String := none
   c15 : Option String := none
+  c02 : Option String := none
+  c03 : Option String := none
   ops : Nat := 0
+  /-- Redefine operations so far -/
+  redefs : Nat := 0
   /-- executions per function over the whole history, and the first result of each -/
   execs : List ExecEv := []
 
@@ -39,7 +43,7 @@ def runHist (fl : Flags) (b : Block) : Res :=
   let genErr := (expandFor sc bld0 target).isNone
   let cgrRedef := callGraph fl.var sc.env bld sc.fn target true none
   let fx := mkFacts sc bld target
-  let runs := splitRunsWith ["rdres", "rdexecs", "hop"] b.lines
+  let runs := splitRunsWith ["rdres", "rdexecs", "hop", "rdsets", "rdfin"] b.lines
   let outCount := fun (fid : Nat) => ((sc.fn fid).map (fun f => f.output.values.length)).getD 0
   let st := runs.foldl (fun (h : HistSt) rl =>
     let evs := rl.1
@@ -49,7 +53,11 @@ def runHist (fl : Flags) (b : Block) : Res :=
       -- a Redefine: planning run with the current memo cells; nothing it does is kept
       let rdres := rdl.drop 1
       let rdexecs := natOf ((((rl.2.find? (fun l => l.head? = some "rdexecs")).getD []).drop 1).headD "0")
+      let rdsets := (((rl.2.find? (fun l => l.head? = some "rdsets")).getD []).drop 1).headD "intact"
       let (items, _) := buildOracle evs
+      -- the operation's own input filter (none: the plain Redefine)
+      let fin := parseFilter ((((rl.2.find? (fun l => l.head? = some "rdfin")).getD []).drop 1).headD "none")
+      let cgrRedef := if fin.isNone then cgrRedef else callGraph fl.var sc.env bld sc.fn target true fin
       let ctx : Ctx := { env := sc.env, g := cgrRedef.cg.g, funcOf := sc.funcOfKey bld.convs, beh := zeroBeh outCount,
                          memoCopy := fl.memoCopy, publishAfterUpdate := fl.publishAfterUpdate,
                          trackReaching := fl.trackReaching, takeValuedNamed := fl.takeValuedNamed,
@@ -58,8 +66,9 @@ def runHist (fl : Flags) (b : Block) : Res :=
       let c := if genErr then (if rdres = ["err", "generr"] then none else some s!"op{h.ops}_failing_generator_expected_error_from_redefine")
                else if showRedef o = showImplRedef rdres then none
                else some s!"op{h.ops}_redefine_model=[{noSpace (showRedef o)}]_impl=[{noSpace (showImplRedef rdres)}]"
-      { h with conform := h.conform.or c,
-               c09 := h.c09.or (if rdexecs = 0 then none else some s!"op{h.ops}_redefine_executed_{rdexecs}_user_function_bodies"),
+      { h with conform := h.conform.or c, redefs := h.redefs + 1,
+               c09 := (h.c09.or (if rdexecs = 0 then none else some s!"op{h.ops}_redefine_executed_{rdexecs}_user_function_bodies")).or
+                        (if rdsets = "intact" then none else some s!"op{h.ops}_redefine_left_value_sets_{rdsets}"),
                c06 := h.c06.or (if rdres.head? = some "panic" then some s!"redefine_{noSpace (showImplRedef rdres)}" else none) }
     | none =>
       -- a call: possibly on another function object of the scenario, possibly with an option left out
@@ -97,7 +106,18 @@ def runHist (fl : Flags) (b : Block) : Res :=
                  -- values returned by executions of earlier operations (memoised run-once results) are legitimate origins
                  c01 := h.c01.or (c01check sc fx'.supplied ex h.execs),
                  c13 := h.c13.or (get "C13"),
+                 -- C03 on calls of the target (its own error is a legitimate outcome here, unlike in the exact family)
+                 c03 := h.c03.or (if tfid ≠ 0 ∨ tgt.once then none else
+                   ((get "C03").filter (fun m => m != "exact_inputs_but_funcerr")).map (fun m => s!"op{h.ops}_{m}")),
                  c11 := h.c11.or c11d,
+                 -- C09: after any number of Redefine calls the original function and every converter behave exactly as
+                 -- before — the model's Redefine leaves nothing behind, so a later operation that differs is reported
+                 c09 := h.c09.or (if h.redefs > 0 then ro.conform.map (fun m => s!"op{h.ops}_after_{h.redefs}_Redefine_calls_a_call_no_longer_behaves_as_before:{m}") else none),
+                 -- C02: a call whose resolution fails (replaying this very trace) must not succeed — also when the target
+                 -- is a run-once function that already has a result
+                 c02 := h.c02.or (match ro.outcome, (resOf evs).head? with
+                   | .unsat _ _, some "ok" => some s!"op{h.ops}_underivable_parameter_but_call_returned_ok"
+                   | _, _ => none),
                  -- C15: a function assembled with BuildFunc behaves like an ordinary function of its signature — the
                  -- model knows no difference, so a divergence in an operation that executed one is reported under C15
                  c15 := h.c15.or (match ro.conform with
@@ -125,7 +145,7 @@ def runHist (fl : Flags) (b : Block) : Res :=
   let nOnceUsed := (onceIds.filter (fun fid => st.execs.any (fun e => e.fid == fid))).length
   { conform := st.conform, propNA := true,
     props := [("C09", verdictStr st.c09), ("C11", verdictStr c11), ("C06", verdictStr st.c06), ("C04", verdictStr st.c04),
-              ("C13", verdictStr st.c13), ("C17", verdictStr (st.c17.or st.c11)), ("C15", verdictStr st.c15), ("C01", verdictStr st.c01)],
+              ("C13", verdictStr st.c13), ("C17", verdictStr (st.c17.or st.c11)), ("C15", verdictStr st.c15), ("C01", verdictStr st.c01), ("C02", verdictStr st.c02), ("C03", verdictStr st.c03)],
     stats := [s!"ops={st.ops}", s!"execs={st.execs.length}", s!"once={onceIds.length}", s!"onceused={nOnceUsed}",
               s!"convs={fx.convs.length}", s!"outcome=hist"] }
 
@@ -186,8 +206,13 @@ def runRace (b : Block) : Res :=
     else if raceIn "Redefine.func" then some s!"data_race_while_a_redefined_function_assembles_the_arguments_of_its_call:{raceL.getD 1 "?"}"
     else none
   let c12 := c12.or c01
+  -- C10: concurrent Converts end as sequential ones do
+  let c10 : Option String := (got.find? (fun o => o.startsWith "cv:" && !seq.contains o)).map (fun o =>
+    s!"concurrent_Convert_ended_{o}_which_no_sequential_Convert_does_{seq.filter (·.startsWith "cv:")}")
+  let c06 := c06.or ((got.find? (fun o => o.startsWith "cv:panic:")).map (fun o => s!"concurrent_{o}"))
+  let c12 := c12.or c10
   { conform := none, propNA := true,
-    props := [("C12", verdictStr c12), ("C11", verdictStr c11), ("C06", verdictStr c06), ("C04", verdictStr c04), ("C01", verdictStr c01)],
+    props := [("C12", verdictStr c12), ("C11", verdictStr c11), ("C06", verdictStr c06), ("C04", verdictStr c04), ("C01", verdictStr c01), ("C10", verdictStr c10)],
     stats := [s!"execs={(once.map (·.2)).foldl (· + ·) 0 + 1}", s!"once={once.length}", s!"outcome=race", s!"convs={once.length}"] }
 
 end ArgMapper.Driver
